@@ -294,6 +294,9 @@ pub struct BatchArgs {
     pub level_note: String,
     pub write_evidence: bool,
     pub max_wall_s: u64,
+    /// an additional, independent check run after the batch (C18: Miri); returns
+    /// (evidence fragment, replay path of a violation, harness error)
+    pub extra: Option<fn(&BatchArgs) -> (serde_json::Value, Option<String>, Option<String>)>,
 }
 
 pub fn run_seed(base: u64, engine_id: u64, idx: u64) -> u64 {
@@ -403,6 +406,19 @@ pub fn run_batch<E: Engine>(args: &BatchArgs) -> i32 {
     for l in &known_lines {
         println!("{l}");
     }
+    let mut extra_json = serde_json::Value::Null;
+    if let Some(f) = args.extra {
+        let (j, viol, err) = f(args);
+        extra_json = j;
+        if let Some(path) = viol {
+            n_unlisted += 1;
+            println!("VIOLATION property={} replay={}", args.prop, path);
+            reported.push((path, Violation::new(&[&args.prop], "second-opinion", String::new())));
+        }
+        if let Some(e) = err {
+            harness_errors.push(e);
+        }
+    }
     if n_unlisted > 0 {
         exit = 1;
     }
@@ -447,6 +463,7 @@ pub fn run_batch<E: Engine>(args: &BatchArgs) -> i32 {
                 "faults_fired": agg.fired,
                 "probes": agg.probes,
                 "real_vs_stub": E::real_vs_stub(),
+                "second_opinion": extra_json,
                 "known_findings_seen": known_lines.iter().cloned().collect::<Vec<_>>(),
                 "replays": reported.iter().map(|(f, _)| f.clone()).collect::<Vec<_>>(),
                 "harness_errors": harness_errors,
